@@ -241,8 +241,37 @@ def check_same_as_n(Qd, Hd, Qn, Hn, n, m):
         return None
     dq = np.abs(Qd[:, :n + 1] - Qn).max()
     dh = np.abs(Hd[:n + 1, :n] - Hn).max()
-    if not (dq <= 1e-12 and dh <= 1e-12 * max(1.0, np.abs(Hn).max())):
+    if not (dq <= 1e-12 and dh <= 1e-12 * np.abs(Hn).max(initial=0.0)):
         return f"Q[:, :n+1] / H[:n+1, :n] differ from the n-step run by {kf.fmt(dq)} / {kf.fmt(dh)}"
+    return None
+
+
+def check_scaled(Qs, Hs, Q1, H1, c, dt, A_s, steps_s, steps_1, kdim, m, jmax, steps_ok=True):
+    """Scale equivariance against the run on the unscaled operator (same dtype, start vector, max_iters, tol): same
+    number of steps, same basis, H = c * H_1, up to rounding.  Compared on the leading well-determined part: the
+    first min(m + 1, KDim, jmax + 1) columns of Q (all, when the scaling is exact: c a power of two)."""
+    rt, _ = kf.tol_of(dt)
+    sA = max(float(np.abs(A_s).sum(1).max()), 1e-300)
+    if steps_ok and steps_s is not None and steps_1 is not None and steps_s != steps_1:
+        return (f"{steps_s} Arnoldi steps for {c:g}*A but {steps_1} for A", {"which": "steps"})
+    if Qs.shape != Q1.shape or Hs.shape != H1.shape:
+        return (f"shapes {Qs.shape} {Hs.shape} for {c:g}*A but {Q1.shape} {H1.shape} for A", {"which": "shape"})
+    if not (np.all(np.isfinite(Q1)) and np.all(np.isfinite(H1))):
+        return None
+    if kf.is_pow2(c) and steps_ok:
+        lead = Qs.shape[1]
+        tq, th = 1e-12, 1e-12
+    else:
+        lead = min(Qs.shape[1], m + 1, jmax + 1, kdim if kdim is not None else 1)
+        tq, th = rt, rt
+    Qs, Q1 = Qs.astype(np.complex128), Q1.astype(np.complex128)
+    Hs, H1 = Hs.astype(np.complex128), H1.astype(np.complex128) * c
+    dq = float(np.abs(Qs[:, :lead] - Q1[:, :lead]).max(initial=0.0))
+    hl = max(lead - 1, 0)
+    dh = float(np.abs(Hs[:lead, :hl] - H1[:lead, :hl]).max(initial=0.0))
+    if dq > tq or dh > th * sA:
+        return (f"leading {lead} columns of Q differ by {kf.fmt(dq)}, H from {c:g} * H(A) by {kf.fmt(dh)} "
+                f"(||cA|| = {kf.fmt(sA)})", {"which": "factorisation"})
     return None
 
 
@@ -286,11 +315,13 @@ def check_eigs(A, ev, Vd, m, tol, dt, want, etol_rel, s_exp):
 
 
 # ------------------------------------------------------------------------------------------------------
-def call_arnoldi(A_op, v, m, tol, n, tag, api="arnoldi", kd=0):
+def call_arnoldi(A_op, v, m, tol, n, tag, api="arnoldi", kd=0, default_tol=False, sc=None):
+    """default_tol: the tolerance argument is omitted (cola's default, = tol = 1e-7)."""
+    kw = {} if default_tol else {"tol": tol}
     from cola.linalg.decompositions.arnoldi import arnoldi
     from cola.linalg.decompositions.decompositions import Arnoldi
     rec = recorder()
-    rec.meta = {"alg": "arnoldi", "n": n, "m": m, "tol": tol, "tag": tag, "kd": kd}
+    rec.meta = {"alg": "arnoldi", "n": n, "m": m, "tol": tol, "tag": tag, "kd": kd, "sc": sc}
     rec.on = True
     k0 = len(rec.traces)
     try:
@@ -298,9 +329,9 @@ def call_arnoldi(A_op, v, m, tol, n, tag, api="arnoldi", kd=0):
             warnings.simplefilter("ignore")
             with np.errstate(all="ignore"):
                 if api == "Arnoldi":
-                    Q, H, info = Arnoldi(start_vector=v, max_iters=m, tol=tol)(A_op)
+                    Q, H, info = Arnoldi(start_vector=v, max_iters=m, **kw)(A_op)
                 else:
-                    Q, H, info = arnoldi(A_op, v, max_iters=m, tol=tol)
+                    Q, H, info = arnoldi(A_op, v, max_iters=m, **kw)
     finally:
         rec.on = False
     tr = rec.traces[k0:]
@@ -309,12 +340,13 @@ def call_arnoldi(A_op, v, m, tol, n, tag, api="arnoldi", kd=0):
     return Q, H, info, tr
 
 
-def call_eigs(A_op, v, m, tol):
+def call_eigs(A_op, v, m, tol, default_tol=False):
     from cola.linalg.decompositions.arnoldi import arnoldi_eigs
+    kw = {} if default_tol else {"tol": tol}
     with warnings.catch_warnings():
         warnings.simplefilter("ignore")
         with np.errstate(all="ignore"):
-            ev, V, info = arnoldi_eigs(A_op, v, max_iters=m, tol=tol)
+            ev, V, info = arnoldi_eigs(A_op, v, max_iters=m, **kw)
     return np.asarray(ev), np.asarray(V.to_dense())
 
 
@@ -323,8 +355,13 @@ def mk_viol(item, clause, detail, m, extra, n, kdim, batched, api, dt, tol):
     at = {"dtype": dt, "n": n, "max_iters": m, "regime": regime(m, n), "tol": tol,
           "breakdown": bool(kdim is not None and kdim < cap), "batched": batched, "kdim": kdim, "api": api,
           "source": item["src"], "exact": bool(item.get("exact"))}
+    sc = item.get("op_scale")
+    if sc is not None:      # scaled copy of an existing case: the attrs of the original plus the factor
+        at["op_scale"] = float(sc)
+        at["tol_default"] = item.get("tol") is None
     at.update(extra)
-    case = f"{item['name']} {dt} m={m} tol={tol:g}{' batched' if batched else ''} {api}"
+    case = f"{item['name']} {dt} m={m} tol={tol:g}{' batched' if batched else ''}" \
+           f"{'' if sc is None else f' scale={sc:g}'} {api}"
     rp = dict(item)
     rp["only_m"] = m
     return Violation(PROP, clause, case, at, detail, replay=rp)
@@ -335,9 +372,20 @@ def run_family(item, A, vs, kdims, Ks, wants, etol_rel, detect_ok, ms, hss=None,
     arnoldi_eigs with >= n steps (None: not asserted).  Xs[b]: exact (Q, H) of the exact-breakdown family."""
     import cola
     dt, tol = item["dt"], item["tol"]
+    dflt = tol is None          # the tolerance argument is omitted: cola's default 1e-7
+    tol = 1e-7 if dflt else tol
     n = A.shape[0]
     rt, eps = kf.tol_of(dt)
     exact = bool(item.get("exact"))
+    # scaled copy c*A of an existing case (scale equivariance): same start vectors, KDims, Krylov spaces and basis;
+    # eigenvalues and H scale with c; every tolerance of the clauses below is relative to ||c A||
+    sc = item.get("op_scale")
+    A1 = A
+    if sc is not None:
+        A = A * sc
+        wants = [None if w is None else [complex(x) * sc for x in w] for w in wants]
+        if Xs is not None:
+            Xs = [None if X is None else (X[0], X[1] * sc) for X in Xs]
     # exact-breakdown family: the residual at KDim is the number 0.0, so the stop is visible for every tol >= 0
     detectable = detect_ok and (tol >= 1e3 * eps or exact)
     kd_tr = max(kdims) if exact else 0
@@ -345,8 +393,11 @@ def run_family(item, A, vs, kdims, Ks, wants, etol_rel, detect_ok, ms, hss=None,
     npd = kf.NPDT[dt]
     if not np.issubdtype(npd, np.complexfloating):
         A, vs = np.real(A), [np.real(x) for x in vs]
+        A1 = np.real(A1)
     A_t = A.astype(npd)
     A_op = cola.ops.Dense(A_t)
+    A_op1 = cola.ops.Dense(A1.astype(npd)) if sc is not None else None
+    ca = dict(kd=kd_tr, default_tol=dflt, sc=sc)
     viol, traces, nchk = [], [], 0
     batched = len(vs) > 1
     run_n = None
@@ -369,7 +420,7 @@ def run_family(item, A, vs, kdims, Ks, wants, etol_rel, detect_ok, ms, hss=None,
         try:
             if not batched:
                 v = vs[0].astype(npd)
-                Q, H, info, tr = call_arnoldi(A_op, v, m, tol, n, tag, kd=kd_tr)
+                Q, H, info, tr = call_arnoldi(A_op, v, m, tol, n, tag, **ca)
                 traces += tr
                 Qd, Hd = np.asarray(Q.to_dense()), np.asarray(H.to_dense())
                 res = check_single(A_t, v, Qd, Hd, m, tol, dt, kdims[0], detectable, Ks[0],
@@ -380,9 +431,20 @@ def run_family(item, A, vs, kdims, Ks, wants, etol_rel, detect_ok, ms, hss=None,
                 nchk += 1
                 for cl, de, ex in res:
                     viol.append(mk_viol(item, cl, de, m, ex, n, kdims[0], False, "arnoldi", dt, tol))
+                if sc is not None and not any(cl in ("shape", "finite") for cl, _, _ in res):
+                    Q1, H1, _, tr1 = call_arnoldi(A_op1, v, m, tol, n, tag + "|unscaled", **ca)
+                    nchk += 1
+                    msg = check_scaled(Qd, Hd, np.asarray(Q1.to_dense()), np.asarray(H1.to_dense()), sc, dt, A_t,
+                                       tr[0]["fin"]["steps"] if len(tr) == 1 else None,
+                                       tr1[0]["fin"]["steps"] if len(tr1) == 1 else None, kdims[0], m, jmax,
+                                       steps_ok=(detectable or kf.is_pow2(sc)) and not count_bad
+                                       and not kf.null_start(hss[0], A_t))
+                    if msg:
+                        viol.append(mk_viol(item, "scale_equivariance", msg[0], m, msg[1], n, kdims[0], False, "arnoldi",
+                                            dt, tol))
                 if m > n:
                     if run_n is None:
-                        Qn, Hn, _, trn = call_arnoldi(A_op, v, n, tol, n, f"{item['name']}|{dt}|{n}", kd=kd_tr)
+                        Qn, Hn, _, trn = call_arnoldi(A_op, v, n, tol, n, f"{item['name']}|{dt}|{n}", **ca)
                         traces += trn
                         run_n = (np.asarray(Qn.to_dense()), np.asarray(Hn.to_dense()))
                     msg = check_same_as_n(Qd, Hd, run_n[0], run_n[1], n, m)
@@ -390,14 +452,14 @@ def run_family(item, A, vs, kdims, Ks, wants, etol_rel, detect_ok, ms, hss=None,
                         viol.append(mk_viol(item, "padding", msg, m, {"which": "same_as_n_steps"}, n, kdims[0], False,
                                             "arnoldi", dt, tol))
                 if m >= n and item.get("eigs", True) and wants[0] is not None:
-                    ev, Vd = call_eigs(A_op, v, m, tol)
+                    ev, Vd = call_eigs(A_op, v, m, tol, default_tol=dflt)
                     nchk += 1
                     if not count_bad and (detectable or kdims[0] == n):
                         s_exp = min(m, n, kdims[0])
                         for cl, de, ex in check_eigs(A_t, ev, Vd, m, tol, dt, wants[0], etol_rel, s_exp):
                             viol.append(mk_viol(item, cl, de, m, ex, n, kdims[0], False, "arnoldi_eigs", dt, tol))
                 if item.get("alg_obj", False):
-                    Q2, H2, _, tr3 = call_arnoldi(A_op, v, m, tol, n, tag + "|obj", api="Arnoldi", kd=kd_tr)
+                    Q2, H2, _, tr3 = call_arnoldi(A_op, v, m, tol, n, tag + "|obj", api="Arnoldi", **ca)
                     traces += tr3
                     nchk += 1
                     Q2d, H2d = np.asarray(Q2.to_dense()), np.asarray(H2.to_dense())
@@ -408,7 +470,7 @@ def run_family(item, A, vs, kdims, Ks, wants, etol_rel, detect_ok, ms, hss=None,
                                             "Arnoldi", dt, tol))
             else:
                 V = np.stack([x.astype(npd) for x in vs], axis=1)      # (n, b)
-                Q, H, info, tr = call_arnoldi(A_op, V, m, tol, n, tag + "|batched", kd=kd_tr)
+                Q, H, info, tr = call_arnoldi(A_op, V, m, tol, n, tag + "|batched", **ca)
                 traces += tr
                 QA, HA = np.asarray(Q.A), np.asarray(H.A)
                 nb = len(vs)
@@ -435,10 +497,23 @@ def run_family(item, A, vs, kdims, Ks, wants, etol_rel, detect_ok, ms, hss=None,
                                             f"min(max_iters, n, max KDim) = {e}", m,
                                             dict(uni, excess="more" if s_obs > e else "fewer"), n, kmax, True,
                                             "arnoldi", dt, tol))
+                Q1A = H1A = s1 = None
+                if sc is not None:
+                    Q1, H1, _, tr1 = call_arnoldi(A_op1, V, m, tol, n, tag + "|batched|unscaled", **ca)
+                    nchk += 1
+                    Q1A, H1A = np.asarray(Q1.A), np.asarray(H1.A)
+                    s1 = tr1[0]["fin"]["steps"] if len(tr1) == 1 else None
                 for b in range(nb):
                     res = check_single(A_t, V[:, b], QA[b], HA[b], m, tol, dt, kdims[b], detectable, Ks[b],
                                        assert_count=False, assert_padding=True, steps=None, hs=hss[b], X=Xs[b])
+                    cb = res[1] if isinstance(res, tuple) else True
                     res = res[0] if isinstance(res, tuple) else res
+                    if Q1A is not None and Q1A.shape == QA.shape and H1A.shape == HA.shape:
+                        msg = check_scaled(QA[b], HA[b], Q1A[b], H1A[b], sc, dt, A_t, bsteps, s1, kdims[b], m, jmax,
+                                           steps_ok=b == 0 and (detectable or kf.is_pow2(sc)) and known and not cb
+                                           and not any(kf.null_start(h, A_t) for h in hss))
+                        if msg:
+                            res = list(res) + [("scale_equivariance", msg[0], msg[1])]
                     for cl, de, ex in res:
                         ex = dict(ex)
                         ex.update(uni)
@@ -480,7 +555,7 @@ def observe(item):
                     wants.append(kf.spec_list(c["exp"]["spec"]))
             rt, eps = kf.tol_of(item["dt"])
             jordan = any(s == 1 for s in cs[0]["sup"])
-            etol_rel = max(rt, 50 * np.sqrt(eps)) if jordan else max(rt, 10 * item["tol"])
+            etol_rel = max(rt, 50 * np.sqrt(eps)) if jordan else max(rt, 10 * kf.tol_eff(item))
             return run_family(item, A, vs, kd, Ks, wants, etol_rel, True, list(range(1, n + kf.EXTRA + 1)), Xs=Xs)
         if item["src"] == "struct":
             return observe_struct(item)
@@ -498,7 +573,7 @@ def observe_struct(item):
     A, vs, kdims, wants = kf.struct_case(item)
     rt, _ = kf.tol_of(item["dt"])
     nb = len(vs)
-    return run_family(item, A, vs, kdims, [None] * nb, wants, max(rt, 10 * item["tol"]), True, item["ms"])
+    return run_family(item, A, vs, kdims, [None] * nb, wants, max(rt, 10 * kf.tol_eff(item)), True, item["ms"])
 
 
 def observe_random(item):
@@ -552,12 +627,12 @@ def observe_random(item):
     # eigenbasis is well conditioned
     sep_ok = all(item2 for item2 in seps)
     near = min(gaps) if gaps else scale
-    kd_ok = sep_ok and condV * eps * 1e3 <= min(item["tol"], rt) and (max(kdims) <= 16 or vk == "generic")
+    kd_ok = sep_ok and condV * eps * 1e3 <= min(kf.tol_eff(item), rt) and (max(kdims) <= 16 or vk == "generic")
     sA = float(np.abs(A).sum(1).max())
     Ks = [None] * nb
     item = dict(item)
     item["thr_scale"] = max(1.0, condV * 1e-2)
-    etol_rel = max(rt, 1e3 * eps * condV, 10 * item["tol"])
+    etol_rel = max(rt, 1e3 * eps * condV, 10 * kf.tol_eff(item))
     eig_ok = kd_ok and etol_rel < 1e-2 and (near > 10 * etol_rel * sA or kind.startswith("herm"))
     if not eig_ok:
         wants = [None] * nb
